@@ -97,7 +97,7 @@ def build():
     info = {
         "gen_extra": occurrence_lean(rows),
         "occurrence_rows": len(rows),
-        "n3_relativistic_pvector": "not_extracted (symbolic inverse of RelativisticPVector._create_matrices(3) does not finish; covered by the all-n theorem only)",
+        "n3_relativistic_pvector_entries": "not_extracted (the library's own RelativisticPVector._create_matrices(3) does not return: sympy's default symbolic inverse does not finish, see notes/findings_C10.md); covered by the all-n theorem, and in the thorough tier numerically with sympy's inversion method replaced",
         "observation": "_create_matrices returns functools.cache'd mutable matrices when parametrize=False; C10 quantifies over inputs, not call histories",
     }
     return b.out, {}, info
@@ -310,42 +310,102 @@ import json, sys
 sys.path.insert(0, sys.argv[1]); sys.path.insert(0, sys.argv[2])
 from tools.lib import common
 common.use_repo_source()
-from tools.props.C10 import evaluate_case
 spec = json.load(open(sys.argv[3]))
+if spec.get("probe"):
+    # the library's own call, unmodified
+    from ampform.dynamics import kmatrix as km
+    km.RelativisticPVector.formulate(3, 1, parametrize=False)
+    print(json.dumps({"probe": "returned"}))
+    sys.exit(0)
+if spec.get("patch_inv"):
+    # sympy's DEFAULT inversion (Gaussian elimination) does not terminate in reasonable time on the
+    # 3x3 matrix of RelativisticPVector._create_matrices(3); the library's own code is run with the
+    # default replaced by the adjugate method. Only sympy's algorithm changes, not ampform's source.
+    import sympy as sp
+    _orig = sp.MutableDenseMatrix.inv
+    def _inv(self, method=None, **kw):
+        return _orig(self, method=method or "ADJ", **kw)
+    sp.MutableDenseMatrix.inv = _inv
+from tools.props.C10 import evaluate_case
 print(json.dumps([evaluate_case(c) for c in spec["cases"]]))
 """
 
 
-def three_channel(chk, rng, cap_s: int = 900):
-    """n = 3, non-relativistic P-vector (the relativistic one cannot be extracted): residuals of the
-    real formulate(3, n_poles) in a capped subprocess."""
+def _n3_run(tmp, spec: dict, cap_s: int):
+    (Path(tmp) / "n3.py").write_text(_N3_SCRIPT)
+    (Path(tmp) / "spec.json").write_text(json.dumps(spec))
+    return subprocess.run([common.PY, str(Path(tmp) / "n3.py"), str(common.ROOT), str(common.REPO / "src"),
+                           str(Path(tmp) / "spec.json")], capture_output=True, text=True, timeout=cap_s,
+                          cwd=str(common.ROOT))
+
+
+def three_channel(chk, rng, cap_s: int = 900, probe_cap_s: int = 120):
+    """n = 3 (thorough): residuals of the real formulate(3, n_poles) in capped subprocesses.
+    Non-relativistic: the library as it is. Relativistic: the library's own call is probed with a cap
+    (it does not return: sympy's default Gaussian-elimination inverse explodes on the √ρ / conjugate
+    entries, see notes/findings_C10.md); the residuals are then evaluated with the library's code
+    unchanged but sympy's default inversion method replaced by the adjugate method."""
     tmp = tempfile.mkdtemp(prefix="c10n3_")
     bad = []
     try:
+        # --- non-relativistic
         cases = []
         np_ = rng.randint(1, 3)
         for j in range(24):
             vals = physical_point(rng, 3, np_)
             cases.append({"kind": "nr", "n_channels": 3, "n_poles": np_, "L": 0, "phsp": "-", "values": vals,
                           "sub_threshold_pole": False})
-        (Path(tmp) / "n3.py").write_text(_N3_SCRIPT)
-        (Path(tmp) / "spec.json").write_text(json.dumps({"cases": cases}))
         try:
-            p = subprocess.run([common.PY, str(Path(tmp) / "n3.py"), str(common.ROOT), str(common.REPO / "src"),
-                                str(Path(tmp) / "spec.json")], capture_output=True, text=True, timeout=cap_s,
-                               cwd=str(common.ROOT))
+            p = _n3_run(tmp, {"cases": cases}, cap_s)
         except subprocess.TimeoutExpired:
+            p = None
             chk.info("n3_nonrelativistic_pvector", f"not_extracted (time cap {cap_s}s)")
+        if p is not None and p.returncode != 0:
+            chk.info("n3_nonrelativistic_pvector", "failed: " + p.stderr[-300:])
+            bad.append({"what": "the real code raised for n_channels = 3", "error": p.stderr[-800:]})
+        elif p is not None:
+            res = json.loads(p.stdout.strip().split("\n")[-1])
+            chk.info("n3_nonrelativistic_pvector", {"cases": len(res), "worst_residual": max(r["residual"] for r in res)})
+            for case, r in zip(cases, res):
+                chk.count(("n3", round(case["values"]["s"], 9)))
+                if r["finite"] and r["residual"] > 1e-8:
+                    bad.append({"what": "(1 - iK)F != P for the library's own K and P", **case, **r})
+        # --- relativistic: probe the library's own call
+        try:
+            p = _n3_run(tmp, {"probe": True}, probe_cap_s)
+            probe = "returned" if p.returncode == 0 else "failed: " + p.stderr[-200:]
+        except subprocess.TimeoutExpired:
+            probe = f"RelativisticPVector.formulate(3, 1, parametrize=False) did not return within {probe_cap_s}s"
+        chk.info("n3_relativistic_pvector_library_call", probe)
+        # --- relativistic with sympy's inversion method replaced
+        cases = []
+        np_ = rng.randint(1, 2)
+        L = rng.randint(0, 3)
+        phsp = rng.choice(["PhaseSpaceFactor", "PhaseSpaceFactorAbs", "MarkerPhsp"])
+        for j in range(16):
+            vals = physical_point(rng, 3, np_, sub_threshold=(j % 4 == 3))
+            vals["d"] = rng.uniform(0.5, 3.0)
+            cases.append({"kind": "rel", "n_channels": 3, "n_poles": np_, "L": L, "phsp": phsp, "d": vals["d"],
+                          "values": vals, "sub_threshold_pole": is_sub_threshold(vals, 3, np_)})
+        try:
+            p = _n3_run(tmp, {"cases": cases, "patch_inv": True}, cap_s)
+        except subprocess.TimeoutExpired:
+            chk.info("n3_relativistic_pvector", f"not evaluated even with the adjugate inverse (time cap {cap_s}s); all-n theorem only")
             return bad
         if p.returncode != 0:
-            chk.info("n3_nonrelativistic_pvector", "failed: " + p.stderr[-300:])
-            return [{"what": "the real code raised for n_channels = 3", "error": p.stderr[-800:]}]
+            chk.info("n3_relativistic_pvector", "failed: " + p.stderr[-300:])
+            return [*bad, {"what": "the real code raised for n_channels = 3 (relativistic P-vector)", "error": p.stderr[-800:]}]
         res = json.loads(p.stdout.strip().split("\n")[-1])
-        chk.info("n3_nonrelativistic_pvector", {"cases": len(res), "worst_residual": max(r["residual"] for r in res)})
+        chk.info("n3_relativistic_pvector", {
+            "how": "library code unchanged, sympy default inverse replaced by method='ADJ' (the default does not terminate)",
+            "cases": len(res), "n_poles": np_, "L": L, "phsp": phsp,
+            "worst_residual": max(r["residual"] for r in res),
+            "worst_residual_F_sqrt_rho": max(r["residual_F_sqrt_rho"] for r in res)})
         for case, r in zip(cases, res):
-            chk.count(("n3", round(case["values"]["s"], 9)))
-            if r["finite"] and r["residual"] > 1e-8:
-                bad.append({"what": "(1 - iK)F != P for the library's own K and P", **case, **r})
+            chk.count(("n3-rel", round(case["values"]["s"], 9)))
+            if r["finite"] and (r["residual"] > 1e-8 or r["residual_F_sqrt_rho"] > 1e-8):
+                bad.append({"what": "(1 - iK)F != P for the library's own K and P" if r["residual"] > 1e-8 else "F != sqrt(rho) F-hat",
+                            **case, **r})
     finally:
         import shutil
 
